@@ -187,7 +187,8 @@ def World.deliverLsn (w : World) (lid : Nat) (addr : String) (d : List UInt8) : 
                 let c' := { wr.ep.c with lastRecvMs := w.env.nowMs, lastSendMs := w.env.nowMs }
                 let w := { w with routes := ((lid, a.addr), cid) :: w.routes.filter (·.2 != cid) }
                 let w := w.say s!"rebind {cid} {a.addr}"
-                (w.setEp cid { r' with node := .conn { wr with ep := { wr.ep with c := c' } } }, false)
+                -- (the state digest of the harness covers every live block: the re-bound connection's time stamps count)
+                (w.setEp cid { r' with node := .conn { wr with ep := { wr.ep with c := c' } } }, c' != wr.ep.c)
               | _ => (w, false)
             | none => (w, false)
           else
